@@ -344,7 +344,9 @@ def run(tier, seed):
         seen.add(sig)
         head = c["msg"].split(":")[0]
         ft, _, k = head.partition("/")
-        viols.append(Violation(sig, f"{c['msg']}", dict(model=c["model"], cfg=dict(ft=ft, kind=k))))
+        is_reader = kind.startswith("concurrent-reader")
+        viols.append(Violation(sig, f"{c['msg']}", dict(model=c["model"], cfg=dict(ft=ft, kind=k, reader=is_reader,
+                                                                                      full_advance=("reader_advance" in c["model"])))))
     return Result(
         property_id=PROP, engine="symx + fsx interposer",
         explanation="The solver drives an exhaustive fork over the crash point (every numbered file-system effect of the crashing "
@@ -369,6 +371,26 @@ def run(tier, seed):
 
 
 def replay(case):
+    if case["cfg"].get("reader"):
+        common.import_sedpack()
+        cfg = case["cfg"]
+        with common.scratch_dir("vt06rr_") as tmp:
+            with common.scratch_dir("vt06b_") as btmp:
+                root0, committed = committed_state(btmp, cfg["ft"], cfg["kind"])
+                work = tmp / "work"
+                shutil.copytree(root0, work)
+            snap = tmp / "snap"
+            snap.mkdir()
+            fx = fsx.Fsx(work)
+            fx.snapshot_to = str(snap)
+            with fx:
+                crashing_session(work, cfg["ft"], cfg["kind"])
+            shutil.copytree(work, snap / str(fx.counter))
+            try:
+                reader_scenario(ConcreteEngine(case["model"]), cfg, (None, committed, fx.counter, tmp, snap, 10 ** 6))
+            except CexFound as c:
+                return True, f"reproduced: real reader reading at the model's two instants of the real writer's timeline: {c.msg}"
+        return False, "not reproduced"
     try:
         scenario(ConcreteEngine(case["model"]), case["cfg"])
     except CexFound as c:
